@@ -446,7 +446,32 @@ def run(check):
         calls = [x for x in jsast.walk(ctor[0]) if x.get("type") == "CallExpression" and callee_name(x) == ["getSourcePathAndLineFromSourceMaps"]]
         ok = False
         if calls:
-            names = [(callee_name(a) or ["", ""])[-1] for a in call_args(calls[0]) if a.get("type") == "CallExpression"]
+            from .. import jsguards as _jg2
+
+            Fst = _jg2.File(st)
+
+            def getter_of(a):
+                """the call-site getter an argument is the result of: called in place, or read from the object a
+                local helper builds (`reported.fileName` with `reported = getReportedPosition(callSite)`)"""
+                a = _jg2.JF.unparen(a)
+                if a.get("type") == "CallExpression":
+                    return (callee_name(a) or ["", ""])[-1]
+                if a.get("type") == "MemberExpression" and a["property"].get("type") == "Identifier" and jsast.ident_name(a["object"]):
+                    init = Fst.resolve_const(ctor[0])(jsast.ident_name(a["object"]))
+                    init = _jg2.JF.unparen(init) if init is not None else {}
+                    hn = (callee_name(init) or [None])[0] if init.get("type") == "CallExpression" and len(callee_name(init) or []) == 1 else None
+                    h_ = Fst.decls.get(hn) if hn else None
+                    if h_ is not None:
+                        rs_ = [x for x in jsast.walk(h_) if x.get("type") == "ReturnStatement" and Fst.enclosing_fn(x) is h_]
+                        obj = _jg2.JF.unparen(rs_[0].get("argument") or {}) if len(rs_) == 1 else {}
+                        for p_ in obj.get("properties", []) if obj.get("type") == "ObjectExpression" else []:
+                            if p_.get("type") == "KeyValueProperty" and p_["key"].get("value") == a["property"]["value"] and p_["value"].get("type") == "CallExpression":
+                                recv = (callee_name(p_["value"]) or [None])[0]
+                                if recv in Fst.params(h_):
+                                    return (callee_name(p_["value"]) or ["", ""])[-1]
+                return None
+
+            names = [getter_of(a) for a in call_args(calls[0])]
             ok = names == ["getFileName", "getLineNumber", "getColumnNumber"]
         c.expect(ok, R4, R4 + "/lookup-args", st.loc(ctor[0]), "lookup(getFileName(), getLineNumber(), getColumnNumber())", "WrappedCallSite looks up %s" % (names if calls else None))
         getters = {"getFileName": "source", "getLineNumber": "lineNumber", "getColumnNumber": "columnNumber"}
